@@ -75,7 +75,7 @@ def gen_step(rng, ext, toks):
     for _ in range(rng.choice([0, 0, 1, 3])): N(atom()); toks.append(("e",))
     N(0); toks.append(("e",))
     if rng.random() < 0.3:
-        toks.append(("w", b"E")); toks.append(("e",))
+        toks.append(("w", b"E")); toks.append(("e",) if rng.random() < 0.6 else ("sp",))      # the first external may follow on the keyword's line (C07-q)
         for _ in range(rng.choice([0, 1, 3])): N(atom()); toks.append(("e",))
         N(0); toks.append(("e",))
     N(rng.choice([0, 1, 5])); toks.append(("e",))
@@ -94,6 +94,8 @@ def render(rng, toks, fancy):
             if not first: out += b"\n"
             out += t[1]; first = True
             continue
+        elif t[0] == "sp":
+            out += rng.choice([b" ", b"  ", b"\t"]); first = True
         elif t[0] == "e":
             if not first or (out and out[-1:] not in (b"\n", b"\r")): out += rng.choice([b"\n", b"\r\n"]) if fancy else b"\n"
             first = True
